@@ -1361,12 +1361,14 @@ package bpmn
 // The relay goroutine of one activation: the activity's answer is passed on unchanged, then the harness is marked
 // inactive (boundary events stop reacting) and says so.
 //@ func (*harness).run$1
-//@   prop C10 C11
+//@   prop C10 C11 C07
+//@   ensures [a-relay-that-sends-a-trace-is-a-registered-sender-released-exactly-once-on-exit @C07] count(Call, code("tracing|ISenderHandle.Done")) == old(count(Call, code("tracing|ISenderHandle.Done"))) + 1
 //@   ensures [answer-relayed-unchanged-then-deactivated] isRecv(ev(old(evlen))) && evch(ev(old(evlen))) == in ==>
-//@             evlen == old(evlen) + 3 && isSend(ev(old(evlen) + 1)) && evch(ev(old(evlen) + 1)) == out &&
+//@             evlen == old(evlen) + 4 && isSend(ev(old(evlen) + 1)) && evch(ev(old(evlen) + 1)) == out &&
 //@             evval(ev(old(evlen) + 1)) == evval(ev(old(evlen))) && node.active == 0 &&
 //@             isTrace(ev(old(evlen) + 2)) && is(evval(ev(old(evlen) + 2)), ActiveBoundaryTrace) && !evval(ev(old(evlen) + 2)).(ActiveBoundaryTrace).Start
-//@   ensures [context-end-relays-nothing] !(isRecv(ev(old(evlen))) && evch(ev(old(evlen))) == in) ==> evlen == old(evlen) + 1
+//@   ensures [context-end-relays-nothing] !(isRecv(ev(old(evlen))) && evch(ev(old(evlen))) == in) ==> evlen == old(evlen) + 2
+//@   ensures [releasing-its-sender-is-the-last-thing-the-relay-does] isCall(ev(evlen - 1)) && evch(ev(evlen - 1)) == code("tracing|ISenderHandle.Done")
 
 // One activation step of the harness: marked active first, announced, the activity asked, one relay goroutine
 // started, and the relay's output channel handed to the asking token.
@@ -1377,6 +1379,9 @@ package bpmn
 //@     invariant count(Call, code("tracing|ISenderHandle.Done")) == old(count(Call, code("tracing|ISenderHandle.Done")))
 //@     cancels ctx
 //@     invariant node.mch == old(node.mch) && node.activity == old(node.activity)
+//@     iter ensures [a-relay-is-registered-as-a-sender-right-before-it-is-started @C07]
+//@       forall p int :: old(evlen) < p && p < evlen && isSpawn(ev(p)) && evch(ev(p)) == code("(*harness).run$1") ==>
+//@         isCall(ev(p - 1)) && evch(ev(p - 1)) == code("tracing|ITracer.RegisterSender")
 //@     iter ensures [activation-marks-active-asks-once-and-answers-with-the-relay]
 //@       isRecv(ev(old(evlen))) && evch(ev(old(evlen))) == node.mch && is(evval(ev(old(evlen))), nextHarnessActionMessage) ==>
 //@         node.active == 1 &&
